@@ -61,6 +61,8 @@ structure FaultSpec where
   /-- store read / write faults and `lockStateFail` (letter `u`) -/
   f : Faults := {}
   signFail : List Nat := []
+  /-- letter `r<k>`: the ruler's verdict list is cut to its first `k` entries (Model/ShortRules.lean) -/
+  short : Option Nat := none
   deriving Inhabited
 
 def parseFaults (s : String) : Option FaultSpec :=
@@ -74,6 +76,8 @@ def parseFaults (s : String) : Option FaultSpec :=
       (tok.drop 1).toString.toNat?.map (fun i => { acc with f := { acc.f with fetchFail := i :: acc.f.fetchFail } })
     else if tok.startsWith "g" then
       (tok.drop 1).toString.toNat?.map (fun i => { acc with signFail := i :: acc.signFail })
+    else if tok.startsWith "r" then
+      (tok.drop 1).toString.toNat?.bind (fun k => if k = 0 then none else some { acc with short := some k })
     else none
 
 def parseAtt (fs : List String) : Option AttData :=
